@@ -42,7 +42,12 @@ def main():
         errs = [p for p in PIDS if out[sid][p][0] in ("error", "skipped")]
         res[sid] = {"fired": fired, "errors": errs, "rules": {p: out[sid][p][1][:160] for p in fired}}
         print(f"{sid:8s} fired={','.join(fired) or '-':30s} {'ERR:' + ','.join(errs) if errs else ''}")
-    json.dump(res, open(os.path.join(HERE, "seed_matrix.json"), "w"), indent=1)
+    path = os.path.join(HERE, "seed_matrix.json")
+    if pref and os.path.exists(path):
+        old = json.load(open(path))          # a partial run updates the rows it covered
+        old.update(res)
+        res = dict(sorted(old.items(), key=lambda kv: (kv[0].split("-")[0], int(kv[0].split("-")[1]))))
+    json.dump(res, open(path, "w"), indent=1)
 
 
 if __name__ == "__main__":
